@@ -574,7 +574,12 @@ func (tl TemporalLiteral) String() string {
 	}
 	sb.WriteString(tl.Literal.String())
 	if tl.Interval != nil {
-		sb.WriteString(tl.Interval.String())
+		if tl.Interval.IsEternal() {
+			// An explicit annotation is kept; only a missing one prints as nothing.
+			sb.WriteString("@[_, _]")
+		} else {
+			sb.WriteString(tl.Interval.String())
+		}
 	}
 	return sb.String()
 }
